@@ -258,6 +258,12 @@ def absorb (v : Word × Word × Word × Word) (m : Word) : Word × Word × Word 
   let (v0, v1, v2, v3) := sipRound (sipRound (v0, v1, v2, v3 ^^^ m))
   (v0 ^^^ m, v1, v2, v3)
 
+/-- finalization: `v2 ⊕= ff`, d = 4 SipRounds, return `v0 ⊕ v1 ⊕ v2 ⊕ v3` -/
+def finalization (v : Word × Word × Word × Word) : Word :=
+  let (v0, v1, v2, v3) := v
+  let (v0, v1, v2, v3) := sipRound (sipRound (sipRound (sipRound (v0, v1, v2 ^^^ 0xff#64, v3))))
+  v0 ^^^ v1 ^^^ v2 ^^^ v3
+
 /-- SipHash-2-4 of `msg` under the 16-byte key `key` (k0, k1 little-endian) -/
 def hash (key msg : Bytes) : Word :=
   let k0 := leWord 64 (key.take 8)
@@ -269,10 +275,7 @@ def hash (key msg : Bytes) : Word :=
   let full := (toBlocks 8 msg).map (leWord 64)
   let rest := msg.drop (msg.length / 8 * 8)
   let last := leWord 64 rest ||| (BitVec.ofNat 64 (msg.length % 256) <<< 56)
-  let v := (full ++ [last]).foldl absorb v
-  let (v0, v1, v2, v3) := v
-  let (v0, v1, v2, v3) := sipRound (sipRound (sipRound (sipRound (v0, v1, v2 ^^^ 0xff#64, v3))))
-  v0 ^^^ v1 ^^^ v2 ^^^ v3
+  finalization ((full ++ [last]).foldl absorb v)
 end SipHash
 
 end TlxVerif.C14.Spec
